@@ -909,6 +909,13 @@ func (p *Parser) parseFunctionDefinition() ast.Expression {
 	// skip the `function` keyword
 	p.nextToken()
 
+	// A function is called by name, so it needs one.
+	if !p.curTokenIs(token.IDENT) {
+		msg := fmt.Sprintf("expected the name of the function but got %s around %s", p.curToken.Literal, p.curToken.Position())
+		p.errors = append(p.errors, msg)
+		return nil
+	}
+
 	// Define a function with the identifier
 	lit := &ast.FunctionDefinition{Token: p.curToken}
 
@@ -974,9 +981,18 @@ func (p *Parser) parseFunctionParameters() []*ast.Identifier {
 		identifiers = append(identifiers, ident)
 		p.nextToken()
 
-		// Skip any comma.
+		// A comma, and then the next parameter, or the end.
 		if p.curTokenIs(token.COMMA) {
 			p.nextToken()
+			if !p.curTokenIs(token.IDENT) {
+				msg := fmt.Sprintf("expected a parameter name after , but got %s around %s", p.curToken.Literal, p.curToken.Position())
+				p.errors = append(p.errors, msg)
+				return nil
+			}
+		} else if !p.curTokenIs(token.RPAREN) {
+			msg := fmt.Sprintf("expected , or ) after a parameter but got %s around %s", p.curToken.Literal, p.curToken.Position())
+			p.errors = append(p.errors, msg)
+			return nil
 		}
 	}
 
